@@ -839,8 +839,14 @@ def unroll_case(ctx, sf, spec, shots, space, reqs, pending, share=False):
                      dict(kind="unroll_flags", spec=spec, shots=shots, space=space, share=share))
     mcirc = [dict(c, meas=c["cls"].startswith("Measure")) for c in T.canon_circ(p2.circuit)]
     reqs.append(dict(op="tdm.measOrder", rolled=T.model_cfg(spec)["rolled"], circ=mcirc))
-    pending.append((dict(spec=spec, shots=shots, space=space, what="get_mode_order"),
-                    dict(order=[int(x) for x in p2.get_mode_order()], modes=[int(x) for x in p2.measured_modes])))
+    try:
+        real_order = dict(order=[int(x) for x in p2.get_mode_order()], modes=[int(x) for x in p2.measured_modes])
+    except Exception as e:  # noqa: BLE001
+        ctx.fail("get_mode_order-raises", f"get_mode_order() of the {'space' if space else 'shift'}-unrolled program (N={spec['N']}, "
+                 f"shots={shots}) raises {type(e).__name__}: {str(e)[:100]}",
+                 dict(kind="unroll_flags", spec=spec, shots=shots, space=space, share=share))
+        real_order = dict(order=None, modes=None)
+    pending.append((dict(spec=spec, shots=shots, space=space, what="get_mode_order"), real_order))
     # property-level: flags and arguments of every unrolled command are those of the rolled command at that bin
     ctx.oracle_cases += 1
     circ = steps[0]["st"]["circuit"]
